@@ -18,13 +18,13 @@ CLAIMS = {
          "The bridge facts ⇒ Disciplined traces (lockset soundness) is the translator's meaning, not a theorem; recorded undisciplined sites are findings in the ledger; the race detector run covers the race-free call subsets only.",
          "Lean 4 proof (happens-before theorem + decide over regenerated lock facts) + Go race detector as search", "§3 C08"),
  "C01": ("Lean 4 theorems over the MemFS model for every call, path and state: a path that is not lexically clean behaves exactly as its Clean() form (walk, outcome and resulting state). The equality with Linux itself is decided by running MemFS and the kernel (OsFS in a chroot on tmpfs) on the same histories with full tree comparison after every call; each known divergence is a ledger class keyed by call, operand situation and the two outcomes.",
-         "MemFS = Posix as a theorem is NOT proved (no Lean reference semantics of Linux yet). OrefaFS has an executable Lean model tied by the same kind of correspondence (results, node tree and path index after every call) and is compared with the kernel in the same way, but no theorem is stated about it yet. The kernel comparison is an oracle run, sampled.",
+         "MemFS = POSIX reference is proved for Mkdir, Remove, Stat/Lstat on clean absolute link-free paths (component-wise resolution, error selection, effect); for the other calls and for paths through links it is NOT a theorem. OrefaFS has an executable Lean model tied by the same kind of correspondence (results, node tree and path index after every call) and is compared with the kernel in the same way, but no theorem is stated about it yet. The kernel comparison is an oracle run, sampled.",
          "Lean 4 proof (unclean = clean) + differential correspondence impl≟model + impl≟kernel oracle with ledger", "§3 C01"),
  "C04": ("Lean 4 theorems: the symlink walk terminates for every link graph and path within a computed fuel (potential-function proof), the budget is 40, no-follow calls get the directory entry itself, a reported ENOENT is sound. Resolution equality with the kernel is an oracle run (chains around the budget, relative/absolute/dangling/cyclic targets).",
          "searchNode ≃ namei is not proved; equality with the kernel is sampled.",
          "Lean 4 proof (termination by potential function, loop invariants) + impl≟kernel oracle", "§3 C04"),
  "C05": ("Lean 4 theorems: the tree invariant WF (depth witness, unique parent, exact link counts, unique ids, no orphan subtree) is preserved by every creating, removing, attribute-changing call, every handle operation and Rename, for all operands and all states; a failed call leaves the state unchanged; the walk facts they rely on are proved from WF (including termination). The executable form wfCheck is evaluated on the implementation's own node graph after every call.",
-         "Rename under the hypothesis RenameSafe (not yet discharged); detached views excluded (kernel-checked witness); the executable check evaluated on the implementation's graph is proved sound for WF (C05_wfCheck_sound); for OrefaFS the consistency of tree and path index is an oracle evaluated after every call, not a theorem; concurrent executions are C06.",
+         "Rename under the hypothesis RenameSafe (not yet discharged); detached views excluded (kernel-checked witness); the executable check evaluated on the implementation's graph is proved sound for WF (C05_wfCheck_sound); for the OrefaFS MODEL the invariant (tree ≟ path index, link counts) is proved for every reachable state (C05_orefa_reachable), on the implementation it is an oracle evaluated after every call; concurrent executions are C06.",
          "Lean 4 proof (invariant preservation by case analysis over the heap) + differential correspondence with graph dumps", "§3 C05"),
  "C07": ("Part (a): Lean 4 theorems that no MemFS path-level call and no handle operation of the model returns the `panic` / `hang` outcome in any well-formed state for any argument; Match and SplitAbs never panic; generic ranked-acquisition ⇒ deadlock-free theorem. The model returns those outcomes exactly where the Go code would panic or self-deadlock, and the correspondence treats an implementation panic/hang as a violation.",
          "Parts (b)(c): nested lock acquisitions of every function are regenerated on every run and the kernel decides that they are exactly the listed ones (with the reason the two locks differ) and that no function re-acquires a lock it holds; deadlock under interleaving is searched (every call kind but Rename started while the lock of a random node is held), not proved; Rename's lock order and OrefaFS Link/Rename are recorded findings.",
@@ -39,7 +39,7 @@ CLAIMS = {
          "Whole histories of read/pread/write/pwrite/lseek/ftruncate on any number of handles of one file are proved to refine a POSIX-style reference given pointwise (C02_history_refines), within the file size limit; attribute calls, directory handles beyond one pass, and OrefaFS handles (executable model + correspondence only) are not part of that theorem; the os.File side is an oracle run (tmpfs) with recorded divergence classes (known_findings.jsonl).",
          "Lean 4 proof (case analysis / induction on batches) + differential correspondence with impl and os.File", "§3 C02"),
  "C03": ("Lean 4 theorems: checkPermission equals Linux DAC class selection for all modes/owners/users (not by enumeration of trees), creation formula perm &^ umask with caller's uid/gid, owner-only chmod, administrator never refused, chown restricted.",
-         "The kernel comparison (setfsuid/setfsgid in a chroot-ed child) is an oracle run with recorded divergence classes; sticky/setgid semantics not covered.",
+         "The kernel comparison (setfsuid/setfsgid in a chroot-ed child) is an oracle run with recorded divergence classes; the sticky bit (restricted deletion) is implemented since the repair and compared with the kernel; setgid inheritance is not covered.",
          "Lean 4 proof (bit-level case analysis) + differential correspondence with non-admin users", "§3 C03"),
  "C09": ("Shape tables of every RoFS / RoFile method are REGENERATED from the Go source on every run (factx) and the kernel re-decides that each is a permission-class refusal, a forward to a tree-preserving base method with identical arguments, the O_RDONLY-guarded OpenFile or the re-wrapped Sub; a generic Lean theorem lifts this to all histories of any length.",
          "The translator is trusted (syntactic, fails closed); behaviour is cross-checked by base-graph snapshots (incl. mtimes) around every call through RoFS, its files and its Sub results.",
